@@ -76,7 +76,13 @@ func Run(c *hx.Ctx) error {
 	shrunk := false
 
 	cases := 0
+	masked := 0 // cases whose deviation is a known finding: a second defect in them would go unseen
 	nextID := 0
+	defer func() {
+		if cases > 0 {
+			c.Stats.Notes = append(c.Stats.Notes, fmt.Sprintf("masked share: %d of %d cases (%.1f %%) deviate in a known finding class", masked, cases, 100*float64(masked)/float64(cases)))
+		}
+	}()
 	for cases < n {
 		// ---- plan a batch (sequential: every random choice derives from the seed) ----------
 		var batch []*plannedSet
@@ -127,9 +133,21 @@ func Run(c *hx.Ctx) error {
 			c.Count(fmt.Sprintf("layout:%s", []string{"memtable", "flushed", "split"}[ps.variant]))
 			g := &exprGen{r: ps.rng, info: ps.info, set: ps.set}
 			for k := 0; k < perSet && cases < n; k++ {
-				q := g.genQuery()
-				cases++
+				// 80 % of the cases keep clear of the triggers of the known findings (matchers, queries
+				// the reference rejects, duplicate signatures over the range), 20 % keep reproducing them
+				avoid := ps.rng.Chance(80)
+				q := g.genQuery(avoid)
 				want := ps.up.query(q)
+				for tries := 0; avoid && tries < 4 && (want.err != "" || dupSignatureOverRange(ps, q, nil)); tries++ {
+					q = g.genQuery(true)
+					want = ps.up.query(q)
+				}
+				if avoid {
+					c.Count("mode:avoid-known-triggers")
+				} else {
+					c.Count("mode:any")
+				}
+				cases++
 				got := srv.promQuery(ps.db, q)
 				exact := ps.set.allInt && exactExpr(q.e)
 				c.Emit(fmt.Sprintf("ref %d %s vals %s", ps.id, q.opTail(), want.values()), want.answer(exact))
@@ -154,6 +172,9 @@ func Run(c *hx.Ctx) error {
 					}
 					c.Violation(line, cls, full)
 					c.Count("deviation:" + cls)
+					if knownClass(cls) {
+						masked++
+					}
 					if verbose {
 						fmt.Fprintf(os.Stderr, "DIFF[%s] set=%d %q start=%d end=%d step=%d lb=%d\n   %s\n", cls, ps.id, q.text, q.start, q.end, q.step, q.lb, desc)
 					}
